@@ -102,8 +102,53 @@ def _run_specs(it, agg, family):
             agg.violation(k, sig, {"spec": spec, "family": family}, d + "\n" + text[:1500])
 
 
+def eval_tree_pass():
+    """one real tree: canonical programs of every language, each text ALSO stored under the extensions of the other languages
+    (byte-identical files in different languages); scan_path must give, for every file, what analysing that file alone with its
+    own lexer gives - and for a file in its own language the generator's ground truth"""
+    from pathlib import Path
+
+    from codelimit.common.Scanner import scan_path
+    from mc import harness
+
+    files, truth = {}, {}
+    for lang in canon.LANGS:
+        sk = programs.skeletons(lang)
+        for name in ("two", "func-global-func", "nested-middle", "class-two-methods"):
+            if name not in sk:
+                continue
+            text, funcs = canon.render(sk[name])
+            for other in canon.LANGS:
+                rel = f"{canon.EXT[lang]}_as_{canon.EXT[other]}/{name.replace('-', '_')}.{canon.EXT[other]}"
+                files[rel] = text
+                truth[rel] = (other, text, oracle.expected(lang, text, funcs, canon.NESTS[lang]) if other == lang else None)
+    out = []
+    with harness.temp_tree(files) as root:
+        harness.reset_globals()
+        cb = scan_path(Path(root))
+        for rel, (lang, text, exp) in sorted(truth.items()):
+            e = cb.files.get(rel)
+            if e is None:
+                out.append(("file-missing-from-scan", {"language": lang}, rel, ""))
+                continue
+            got = oracle.as_tuples(e.measurements())
+            alone = oracle.measured(lang, text)
+            if got != alone or e.language != lang:
+                out.append(("scan-path-differs-from-analysing-the-file-alone", {"language": lang}, rel,
+                            f"{rel}: scan_path gives {e.language} {got[:3]}, the file alone gives {lang} {alone[:3]}"))
+            elif exp is not None and got != exp:
+                out.append(("wrong-length", {"language": lang, "style": "same", "depth": 0, "has_children": False}, rel, f"{rel}: {got} expected {exp}"))
+    return len(files), out
+
+
 def _block(block, agg):
     family, lang, arg = block
+    if family == "TREE":
+        n, viol = eval_tree_pass()
+        agg.case({"family": "TREE", "files": n}, True, f"tree of {n} files", sample=False)
+        for k, sig, rel, d in viol:
+            agg.violation(k, sig, {"family": "TREE", "file": rel}, d)
+        return
     if family == "E1":
         kinds, max_items, max_stmts, shard, nshards = arg
         it = (s for i, s in enumerate(programs.e1_programs(lang, kinds, max_items, max_stmts)) if i % nshards == shard)
@@ -119,6 +164,9 @@ def _block(block, agg):
 
 
 def replay(case):
+    if case.get("family") == "TREE":
+        _, viol = eval_tree_pass()
+        return [{"kind": k, "sig": s, "detail": d} for k, s, rel, d in viol]
     _, _, _, viol = eval_spec(case["spec"])
     return [{"kind": k, "sig": s, "detail": d} for k, s, d in viol]
 
@@ -145,4 +193,5 @@ def run(ctx: core.Ctx):
             blocks.append(("E2", lang, (1 if quick else 2, sh, nsh)))
         for sh in range(4):
             blocks.append(("E3", lang, (not quick, sh, 4)))
+    blocks.append(("TREE", None, None))
     ctx.run_blocks(_block, blocks)
